@@ -68,6 +68,15 @@ def dumper(**opts):
     return dumps
 
 
+def fresh_dumps(d, **opts):
+    """print with a printer built for this call: alternately the public mappyfile.dumps and a new PrettyPrinter"""
+    n = _counts.setdefault(("fresh",), [0])
+    n[0] += 1
+    if n[0] % 2:
+        return mappyfile.dumps(d, **opts)
+    return PrettyPrinter(**opts).pprint(d)
+
+
 _validator = None
 
 
